@@ -170,10 +170,11 @@ CONFIGS = {
 }
 CODE_BASES = [0x8000, 0x8000, 0x8000, 0, 0xFFFF0000, 0xFFFFFF00, 0x7FFFFF80]
 DATA = (0x20000, 0x100)
+DATA2 = (0x20100, 0x40)
 
 
 def step_case(rng, cfgname, thumb, code, mode=None, it=None, e=None, code_base=None, mpu=None, mmu=None, steps=1, hooked=False,
-              pc_off=0, ns=None):
+              pc_off=0, ns=None, pc_top=False):
     """a complete case: config, layout (code, vectors, data), random valid state, `code` bytes at PC"""
     from vf import e1
     cfg = CONFIGS[cfgname]
@@ -185,9 +186,13 @@ def step_case(rng, cfgname, thumb, code, mode=None, it=None, e=None, code_base=N
     if code_base != 0xFFFF0000 and code_base != 0xFFFFFF00:
         devs.append((0xFFFF0000, 0x40))
     devs.append(DATA)
+    devs.append(DATA2)          # abuts DATA: accesses that run off the end of the data device continue in another device
     ptrs = [DATA[0], DATA[0] + DATA[1], DATA[0] + 0x80, code_base, code_base + 0x100, 0, 0xFFFFFFFC]
     st = gen_core(rng, ptrs)
     pc = (code_base + 0x40 + pc_off) & M32
+    if pc_top and code_base == 0xFFFFFF00:
+        # the instruction sits in the last bytes of the address space: PC + 8 / PC + 4 and the next-instruction address wrap through 2^32
+        pc = (1 << 32) - (rng.choice((4, 8)) if not thumb else rng.choice((2, 4, 6, 8)))
     st['R.PC'] = pc
     st['cpsr'] = gen_cpsr(rng, cfg, thumb, mode, it, e)
     for k in SPSR_KEYS:
